@@ -5,7 +5,7 @@
    column + 1, idx holds the row of each stored entry. *)
 From Coq Require Import List Arith ZArith Bool Lia.
 From CTM Require Import Base.Sx Model.Sparse Model.Transpose
-  Proofs.SparseP Proofs.TransposeP Proofs.TransposeFillP Proofs.TransposeSpecP Proofs.TransposeParP Proofs.SparseReshapeP.
+  Proofs.SparseP Proofs.TransposeP Proofs.TransposeFillP Proofs.TransposeSpecP Proofs.TransposePatternP Proofs.TransposeParP Proofs.SparseReshapeP.
 Import ListNotations.
 
 (* ---- count pass (_calculate_csr_indptr): for every load chunk size >= 1 the pointer
@@ -60,6 +60,16 @@ Theorem c13_transpose_exact : forall m n_major use_data indices_max sl E L Lc,
        map (fun r => map (fun j => cell m j (lo + r)) (seq 0 n_major)) (seq 0 n_out)).
 Proof. exact transpose_full. Qed.
 Print Assumptions c13_transpose_exact.
+
+(* the stored pattern, with or without a value array: (r, j) is stored in the output
+   iff (j, lo + r) is stored in the input *)
+Theorem c13_transpose_pattern : forall m n_minor use_data indices_max sl r j,
+  wf_comp m n_minor -> (sl = None -> Forall (fun x => x < indices_max) (idx m)) ->
+  r < n_out_of indices_max sl -> S j < length (ptr m) ->
+  stored (transpose_spec m use_data indices_max sl) r j =
+  stored m j (match sl with Some s => fst s | None => 0 end + r).
+Proof. exact spec_stored. Qed.
+Print Assumptions c13_transpose_pattern.
 
 (* the same equation without any well-formedness of the pointer array: the function
    computes transpose_spec whenever it is given chunk sizes >= 1, consistent array
